@@ -43,6 +43,7 @@ func init() {
 func c14e(c *Ctx) {
 	c.checkLockDiscipline(Protected{pkgWitness, "logState", "mu", []string{"checkpoint", "nextEntry", "mirrorCheckpoint"}}, nil, false)
 	c.checkLockDiscipline(Protected{pkgWitness, "Witness", "logsMu", []string{"meta", "logs"}}, nil, true)
+	c.checkNoReopen(Protected{pkgWitness, "logState", "mu", []string{"checkpoint", "nextEntry", "mirrorCheckpoint"}}, specLockRepl, specLockCrea)
 }
 
 // guardSuccess checks that okRets are unreachable once safe edges are cut.
